@@ -17,13 +17,14 @@ ASSUMPTIONS = [
 ]
 REACH = {"H08a": ["h08a.wrap", "h08a.nowrap"], "H08b": ["h08b.sent", "h08b.empty"], "H08c": ["h08c.sent"]}
 DESTS = [None, P, Q]
+FRESH = ("192.0.2.9", 30490)  # never preset: starts from the default state (True, 1)
 
 
 def bounds(tier):
     k = 6 if tier == "thorough" else 4
     return {
         "H08a": "one assign_outgoing step: destination in {multicast(None), P, Q, fresh}, state (flag, id) with id 1..0xFFFF symbolic, two foreign destinations with symbolic state",
-        "H08b": "K=%d send_sd calls, destination per call from {multicast, P, Q}, empty/non-empty per call, the three counters preset to symbolic (flag, id); datagrams decoded by the independent reader" % k,
+        "H08b": "K<=%d send_sd calls (all sequences up to 3 (thorough 4), sequences of the maximal length over at most two destinations), destination per call from {multicast, P, Q (counters preset to symbolic (flag, id)), a fresh peer (default state)}, empty/non-empty per call; datagrams decoded by the independent reader" % k,
         "H08c": "SimpleEventgroup notifications to 2 subscribers (IPv4, IPv6), %d rounds of 1..2 events, per-destination counters preset symbolic" % (3 if tier == "thorough" else 2),
     }
 
@@ -34,8 +35,10 @@ def cases(tier, seed):
     # destination/emptiness per call: alphabet of 6; all sequences up to K would be 6^K:
     # destinations exhaustively, emptiness symbolic (forked inside)
     for k in range(1, K + 1):
-        for combo in itertools.product(range(3), repeat=k):
-            if k == K or k <= 2:
+        for combo in itertools.product(range(4), repeat=k):
+            if k == K and (combo.count(3) > 1 or len(set(combo)) > 2):
+                continue
+            if k == K or k <= (4 if tier == "thorough" else 3):
                 out.append({"h": "H08b", "dests": list(combo)})
     R = 3 if tier == "thorough" else 2
     for combo in itertools.product((1, 2), repeat=R):
@@ -93,8 +96,9 @@ def h08b(E, M, case):
         model[d] = (E.bool("flag%d" % j), E.int("id%d" % j, 1, 0xFFFF))
         prot.session_storage.outgoing[d] = model[d]
     svc = M.config.Service(0x1234, 1, 1, 0)
+    model[FRESH] = (True, 1)
     for i, di in enumerate(case["dests"]):
-        dest = DESTS[di]
+        dest = (DESTS + [FRESH])[di]
         empty = E.flag("empty%d" % i)
         n0 = len(tr.sent)
         prot.send_sd([] if empty else [svc.create_offer_entry(3)], remote=dest)
@@ -117,7 +121,7 @@ def h08b(E, M, case):
                 E.require(E.Iff(sd["reboot"] == 1, mf), "reboot flag set exactly before the destination's first wrap", {"step": i})
                 E.require(E.And(msgs[0]["session"] >= 1, msgs[0]["session"] <= 0xFFFF), "session id never 0")
                 model[dest] = step_model(E, mf, mid)
-        for d in DESTS:
+        for d in DESTS + ([FRESH] if FRESH in prot.session_storage.outgoing else []):
             g = prot.session_storage.outgoing[d]
             E.require(E.And(E.eq(g[0], model[d][0]), g[1] == model[d][1]), "counters advance only for the destination sent to (empty sends consume nothing)", {"step": i})
 
